@@ -268,6 +268,99 @@ impl Alphabet for Alpha {
     }
 }
 
+// ----- a second, narrower exploration that goes deeper: use / shadow / define / call around blocks -----
+
+#[derive(Clone)]
+pub struct RSt {
+    ops: Vec<u16>,
+    text: String,
+    open: Vec<usize>, // operations inside each open construct so far
+    next_k: u32,
+    r_def: bool,
+}
+
+const R_NAMES: [&str; 10] = ["print(x)", "x := k", "x = k", "fn r() { print(x); x = k }", "r()", "{", "}", "for(2) {", "[x] = [k]", "{..x} = {\"a\": k}"];
+
+struct Res;
+
+impl Alphabet for Res {
+    type St = RSt;
+    fn init(&self) -> RSt {
+        RSt { ops: vec![], text: String::from("x := 0\n"), open: vec![], next_k: 1, r_def: false }
+    }
+    fn enabled(&self, st: &RSt) -> Vec<u16> {
+        let last = st.ops.last().copied();
+        (0..10u16)
+            .filter(|op| match *op {
+                0 => last != Some(0),
+                3 => !st.r_def,
+                4 => st.r_def,
+                5 | 7 => st.open.len() < 3,
+                6 => matches!(st.open.last(), Some(n) if *n > 0),
+                _ => true,
+            })
+            .collect()
+    }
+    fn apply(&self, st: &RSt, op: u16) -> RSt {
+        let mut s = st.clone();
+        s.ops.push(op);
+        if let Some(top) = s.open.last_mut() {
+            *top += 1;
+        }
+        let k = s.next_k;
+        match op {
+            0 => s.text.push_str("print(x)\n"),
+            1 => {
+                s.text.push_str(&format!("x := {}\n", k));
+                s.next_k += 1;
+            }
+            2 => {
+                s.text.push_str(&format!("x = {}\n", k));
+                s.next_k += 1;
+            }
+            3 => {
+                s.text.push_str(&format!("fn r() {{\nprint(x)\nx = {}\n}}\n", k));
+                s.next_k += 1;
+                s.r_def = true;
+            }
+            4 => s.text.push_str("r()\n"),
+            5 => {
+                s.text.push_str("{\n");
+                s.open.push(0);
+            }
+            6 => {
+                s.open.pop();
+                s.text.push_str("}\n");
+            }
+            7 => {
+                s.text.push_str("for e in [0, 1] {\n");
+                s.open.push(0);
+            }
+            8 => {
+                s.text.push_str(&format!("[x] = [{}]\n", k));
+                s.next_k += 1;
+            }
+            _ => {
+                s.text.push_str(&format!("{{..x}} = {{\"a\": {}}}\n", k));
+                s.next_k += 1;
+            }
+        }
+        s
+    }
+    fn program(&self, st: &RSt) -> String {
+        let mut p = st.text.clone();
+        p.push_str(&format!("print(\"{}\")\n", CURSOR_MARK));
+        for _ in st.open.iter().rev() {
+            p.push_str("print(x)\n}\n");
+        }
+        p.push_str("print(x)\n");
+        p
+    }
+    fn describe(&self, st: &RSt) -> String {
+        st.ops.iter().map(|o| R_NAMES[*o as usize]).collect::<Vec<_>>().join(" ; ")
+    }
+}
+
 fn has_subseq(ops: &[u16], pat: &[u16]) -> bool {
     let mut i = 0;
     for o in ops {
@@ -287,9 +380,10 @@ impl Check for C04 {
         let depth = std::env::var("C04_DEPTH").ok().and_then(|s| s.parse().ok()).unwrap_or(ctx.tier.pick(6usize, 8usize));
         let alpha = Alpha { rich: true };
         ctx.rule = format!(
-            "breadth-first over all well-formed histories of <= {} scope operations from {{x := k, x = k, print(x), open block / fn f / fn g / while(2 iterations) / for(2 elements){}, close, f(), g(), return a closure reading and writing x, h = f(), h(), h = closure, h = f, f = closure, closures calling f / g, the shorthand {{x}}, a function stored in an object and called as a method, a closure created in the first iteration of a for loop that reads the loop target, guarded recursive f()}} on top of `x := 0; h := null`; each program is completed by reading x at every open level, closing, and calling f, g, h at top level; dead states (failure before the cursor is first reached) are not expanded; non-trivial = at least one scope-opening operation and one write of x",
+            "breadth-first over all well-formed histories of <= {} scope operations from {{x := k, x = k, print(x), open block / fn f / fn g / while(2 iterations) / for(2 elements){}, close, f(), g(), return a closure reading and writing x, h = f(), h(), h = closure, h = f, f = closure, closures calling f / g, the shorthand {{x}}, a function stored in an object and called as a method, a closure created in the first iteration of a for loop that reads the loop target, guarded recursive f()}} on top of `x := 0; h := null`; each program is completed by reading x at every open level, closing, and calling f, g, h at top level; dead states (failure before the cursor is first reached) are not expanded; plus a narrower exploration to a greater depth (<= {} operations from {{print(x), x := k, x = k, fn r reading and writing x, r(), open block, close, for(2), [x] = [k], {{..x}} = {{..}}}}); non-trivial = at least one scope-opening operation and one write of x",
             depth,
-            if alpha.rich { " / if" } else { "" }
+            if alpha.rich { " / if" } else { "" },
+            ctx.tier.pick(6usize, 9usize)
         );
         let mut g_closure_outlives = false;
         let mut g_late_decl = false;
@@ -321,6 +415,14 @@ impl Check for C04 {
                 }
             },
         )?;
+        let rdepth = std::env::var("C04_RDEPTH").ok().and_then(|s| s.parse().ok()).unwrap_or(ctx.tier.pick(6usize, 9usize));
+        let rstats = bfs(ctx, &Res, rdepth, |c, r, o| self.oracle(c, r, o), |_c, _p| {})?;
+        ctx.extra.insert(
+            "resolution_bounds".into(),
+            json!({"max_operations": rdepth, "completed_depth": rstats.completed_depth, "operations": R_NAMES.len(), "levels(depth,generated,kept)": rstats.levels, "dead_states": rstats.dead}),
+        );
+        let tp: Vec<Case> = super::evalorder::THIS_PROGRAMS.iter().enumerate().map(|(i, p)| Case::new(p.to_string(), 30, format!("`this` is resolved where the function was created, program {}", i))).collect();
+        ctx.judge(tp, |c, r, o| self.oracle(c, r, o))?;
         ctx.guard("a closure was called after its defining scope ended", g_closure_outlives);
         ctx.guard("a function used a variable declared after the function was defined", g_late_decl);
         ctx.guard("recursion re-entered a scope", g_rec);
